@@ -158,7 +158,8 @@ driver raises, or is passed over — patch 06, the current tree).
   - **Success of `substitute` / `resolve_tlib_cells`** (audit finding 6) is proved in Props/C10Library.lean: `substitute_isSome` (the
     model returns a circuit under decidable static hypotheses — no hypothesis `… = some h'`), `remove_dangling_isSome` (the fuel
     suffices), `library_impls_ok` (kernel sweep: all 263 implementation circuits of the five built-in libraries satisfy the
-    implementation-side hypotheses), `library_cell_resolves`, `resolve_step_isSome`, `resolve_isSome_of_genOK`.
+    implementation-side hypotheses), `library_cell_resolves`, `resolve_step_isSome` (one call / one iteration each; `resolveGenOKB_unfold`,
+    formerly `resolve_isSome_of_genOK`, only unfolds the definition of `resolveGenOKB` and is no success theorem).
 * **Correspondence** (harness/c10.py, differential, not proof): model dumps after copy / pickle round trip /
   `eliminate_1to1_forks` = dumps of the real objects on random circuits (both port styles, permuted node order,
   dictionary order of the forks different from the index order, forks without driver); the index maps of `elimForksInM` =
